@@ -143,7 +143,9 @@ bool cmb_condition_signal(struct cmb_condition *cvp)
     /* Allocate space enough to reactivate everything in the heap */
     uint64_t *tmp = cmi_malloc(hp->heap_count * sizeof(*tmp));
 
-    /* First pass, recording the satisfied demand predicates */
+    /* First pass, recording the satisfied demand predicates, kept in queue
+     * order (priority, then waiting time) and not in heap array order, so that
+     * waiters of equal priority are resumed first come, first served */
     for (uint64_t ui = 1; ui <= hp->heap_count; ui++) {
         /* Decode the hashheap item */
         struct cmi_heap_tag *htp = &(hp->heap[ui]);
@@ -153,16 +155,29 @@ bool cmb_condition_signal(struct cmb_condition *cvp)
         const void *ctx = item[2];
 
         if ((*demand)(cvp, pp, ctx)) {
-            /* Satisfied, note it on the list, schedule wakeup event */
+            /* Satisfied, note its heap position on the sorted list */
             cmb_logger_info(stdout, "Condition %s satisfied for process %s",
                             rbp->name, pp->name);
-            tmp[cnt++] = htp->key;
-            const double time = cmb_time();
-            const int64_t priority = cmb_process_priority(pp);
-            (void)cmb_event_schedule(wakeup_event_condition, pp,
-                                     (void *)CMB_PROCESS_SUCCESS,
-                                     time, priority);
+            uint64_t uj = cnt++;
+            while ((uj > 0u)
+                   && (*hp->heap_compare)(htp, &(hp->heap[tmp[uj - 1u]]))) {
+                tmp[uj] = tmp[uj - 1u];
+                uj--;
+            }
+            tmp[uj] = ui;
         }
+    }
+
+    /* Schedule the wakeup events in that order, noting the keys instead */
+    for (uint64_t ui = 0u; ui < cnt; ui++) {
+        const struct cmi_heap_tag *htp = &(hp->heap[tmp[ui]]);
+        struct cmb_process *pp = htp->item[0];
+        const double time = cmb_time();
+        const int64_t priority = cmb_process_priority(pp);
+        (void)cmb_event_schedule(wakeup_event_condition, pp,
+                                 (void *)CMB_PROCESS_SUCCESS,
+                                 time, priority);
+        tmp[ui] = htp->key;
     }
 
     /* Second pass, remove the satisfied waiters from the hashheap */
